@@ -498,8 +498,10 @@ Proof. exact step_preserves_owned_final. Qed.
 Definition exA70 := mkattr 70 (TSet TInt) VMissing None 1 true false None None [].
 Definition exA80 := mkattr 80 (TDict TStr TInt) VMissing None 1 true false None None [].
 Definition exA90 := mkattr 90 (TList TInt) VMissing (Some (FacList [VInt 1%Z])) 1 true false None None [].
+(* a List[int] attribute with _prepare_<attr> = identity and _prepare_<item> = lambda x: x + 1 *)
+Definition exA100 := mkattr 100 (TList TInt) VMissing None 1 true false (Some FId) (Some (FAddInt 1%Z)) [].
 Definition exCT2 : ctable :=
-  [mkcls 1 [exA1; exA50; exA60; exA70; exA80; exA90] false false None [1] 1 [] None None].
+  [mkcls 1 [exA1; exA50; exA60; exA70; exA80; exA90; exA100] false false None [1] 1 [] None None].
 Definition exH2 : list obj :=
   [OInst 1 [(1, VInt 3%Z); (50, VRef 1); (70, VRef 2); (80, VRef 3)];
    OList [VInt 1%Z]; OSet [VInt 4%Z]; ODict [(VStr 1%Z, VInt 2%Z)];
@@ -565,6 +567,13 @@ Example C03_owned_guards_hold :
   nth_error (heap (snd (exRun2 (OpDelAttr 0 90)))) 0
     = Some (OInst 1 [(1, VInt 3%Z); (50, VRef 1); (70, VRef 2); (80, VRef 3); (90, VRef 8)]) /\
   exGood (OpHelper 0 (HReset 90) (exArgs [] true)) = true /\
+  (* preparers: the assigned list is copied and every element goes through the item preparer *)
+  exGood (OpSetAttr 0 100 (VRef 4)) = true /\
+  nth_error (heap (snd (exRun2 (OpSetAttr 0 100 (VRef 4))))) 8 = Some (OList [VInt 6%Z]) /\
+  exGood (OpSetAttr 0 100 (VRef 5)) = true /\
+  exGood (OpHelper 0 (HWithItem 100) (exArgs [VInt 7%Z] true)) = true /\
+  nth_error (heap (snd (exRun2 (OpHelper 0 (HWithItem 100) (exArgs [VInt 7%Z] true))))) 8 = Some (OList [VInt 8%Z]) /\
+  exGood (OpHelper 0 (HWithItem 100) (exArgs [VStr 7%Z] false)) = true /\
   exGood (OpDeepCopy 0) = true /\
   (* the aliasing assignment of the counterexample is NOT covered: the argument is referenced *)
   owned_opf_b exCT [OInst 1 [(1, VInt 3%Z); (50, VRef 1)]; OList []] [VRef 0] (OpSetAttr 0 60 (VRef 1)) = false.
